@@ -168,6 +168,11 @@ def _search_job(args):
         for suf in ('', '1', '2'):
             if v + suf not in pool:
                 pool.append(v + suf)
+    # spellings with an inner underscore (the shape of most invented names), built from the author's own variables
+    for v in list(author)[:4]:
+        for cand in (f'{v}_{v}', f'{v}_D', f'{v}_1'):
+            if cand not in pool:
+                pool.append(cand)
     pool = [p for p in pool if re.fullmatch(r'[A-Z][A-Z0-9_]*', p) and p not in ('A', 'I', 'AM', 'PM')]
     problems = []
     tried = 0
@@ -185,6 +190,11 @@ def _search_job(args):
                         singles.append((v, cand))
     rng.shuffle(singles)
     mappings = [{v: t} for v, t in singles[:n_single]]
+    # one underscore spelling per author variable (single renamings)
+    for v in list(author)[:3]:
+        cand = rng.choice([f'{v}_{v}', f'{v}_D', f'{v}_1'])
+        if cand not in taken:
+            mappings.append({v: cand})
     for attempt in range(2):
         if not author or not pool:
             break
@@ -243,6 +253,20 @@ def _layer_job(args):
                 continue
             missing.append(v)
     return {'lists': lists[:3], 'missing': missing}
+
+
+def duration_specs(rng):
+    """sentences whose variables end up inside a printed range value (`T..T+N`): duration clauses over a temporal concept"""
+    out = []
+    for (c, k, attr, w) in (('patient', 'seat', 'need', 'position'), ('truck', 'dock', 'load', 'stay'), ('nurse', 'ward', 'hours', 'turn')):
+        n, t, p, s = rng.sample(['N', 'T', 'P', 'S', 'K', 'H', 'W', 'Q'], 4)
+        text = ('A timeslot is a temporal concept expressed in minutes ranging from 07:30 AM to 09:00 AM with a length of 10 minutes.\n'
+                f'A {k} is identified by an id.\nA {c} is identified by an id, and has a {attr}.\n'
+                f'A {w} is identified by a {c}, by a {k}, and by a timeslot.\n'
+                f'Whenever there is a {c} {p} with {attr} {n}, whenever there is a timeslot {t}, then we can have a {w} with {c} {p}, '
+                f'with timeslot {t} in exactly 1 {k} {s} for {n} timeslots.\n')
+        out.append((text, [n, t, p, s]))
+    return out
 
 
 def main(tier):
@@ -314,6 +338,7 @@ def main(tier):
     # search: adversarial renaming
     n_single = 6 if tier == 'quick' else 60
     jobs = [(sp.text(), sp.author_vars(), rng.randrange(1 << 30), n_single) for sp in specs]
+    jobs += [(t, av, rng.randrange(1 << 30), n_single) for t, av in duration_specs(rng)]
     for name, t in corpus.corpus():
         if tier == 'quick' and len(t) > 2500 and rng.random() < 0.7:
             continue   # the long examples are sampled in the quick tier, all of them in the thorough tier
